@@ -70,6 +70,16 @@ class UT(py2coq.Translator):
             return "str"
         return super().kind(e)
 
+    def subscript_key(self, e):
+        sl = e.slice
+        if isinstance(sl, ast.UnaryOp) and isinstance(sl.op, ast.USub) and isinstance(sl.operand, ast.Constant) \
+                and isinstance(sl.operand.value, int):
+            key = (self.kind(e.value), "[-%d]" % sl.operand.value)
+            if key not in self.cfg.get("subscripts", {}):
+                raise Unsupported("subscript %s of kind %s" % (key[1], key[0]))
+            return key
+        return super().subscript_key(e)
+
     # ---- expressions ---------------------------------------------------------------------------
     def char(self, e):
         """a one-character string constant -> its code point"""
@@ -201,6 +211,14 @@ class UT(py2coq.Translator):
                 return ind + "let %s := %s in\n" % (py2coq.cname(n), nb[n]), scope | {n}, []
             if k == "ostr" and self.kind(s.value) == "str":
                 return ind + "let %s := Some %s in\n" % (py2coq.cname(n), self.expr(s.value, scope)), scope | {n}, []
+        if isinstance(s, ast.Try):
+            for f in self.cfg.get("try_shapes", []):
+                r = f(self, s, scope, ind)
+                if r is not None:
+                    return r
+        if isinstance(s, ast.Return) and "ret_render" in self.cfg and self.flagmode:
+            t = ind + "let _rv := %s in\n" % self.cfg["ret_render"](self, s.value, scope)
+            return t + ind + "let _ret := true in\n", scope, ["_ret"]
         return super().stmt(s, scope, brk, ind)
 
     def block(self, stmts, A, scope, brk, ind):
@@ -234,6 +252,8 @@ class UT(py2coq.Translator):
         if isinstance(e, ast.Compare) and len(e.ops) == 1 and isinstance(e.ops[0], (ast.Eq, ast.NotEq)):
             l, r = e.left, e.comparators[0]
             # s[0] == 'c' : a character against a one-character constant
+            if _const_str(l) and len(l.value) == 1 and not isinstance(r, ast.Constant) and self.kind(r) == "char":
+                l, r = r, l
             if not isinstance(l, ast.Constant) and self.kind(l) == "char" and _const_str(r) and len(r.value) == 1:
                 t = "(%s =? %s)" % (self.expr(l, scope), self.char(r))
                 return t if isinstance(e.ops[0], ast.Eq) else "(negb %s)" % t
@@ -614,6 +634,111 @@ CFG_TT = {"name": "src_to_text", "params": [("self", "url"), ("full_quote", "boo
           "conds": [cond_url], "shapes": [shape_append_alias]}
 
 
+# ---- parse_host ------------------------------------------------------------------------------------------------
+def _handler_names(h):
+    t = h.type
+    if isinstance(t, ast.Name):
+        return [t.id]
+    if isinstance(t, ast.Tuple):
+        return [x.id for x in t.elts]
+    return []
+
+
+def _raises_parse_error(body):
+    return len(body) == 1 and isinstance(body[0], ast.Raise) and isinstance(body[0].exc, ast.Call) and \
+        _is_name(body[0].exc.func, "URLParseError")
+
+
+def try_inet6(T, s, scope, ind):
+    """try: inet_pton(AF_INET6, host)  except OSError: raise URLParseError  except UnicodeEncodeError: pass
+       except ValueError: raise URLParseError  else: family = AF_INET6; return family, host"""
+    if ast.unparse(s.body[0]) != "inet_pton(socket.AF_INET6, host)" or len(s.body) != 1:
+        return None
+    try:
+        hs = {tuple(_handler_names(h)): h for h in s.handlers}
+        assert set(hs) == {("OSError",), ("UnicodeEncodeError",), ("ValueError",)} and not s.finalbody
+        assert [tuple(_handler_names(h)) for h in s.handlers].index(("UnicodeEncodeError",)) < \
+            [tuple(_handler_names(h)) for h in s.handlers].index(("ValueError",))      # subclass caught first
+        assert _raises_parse_error(hs[("OSError",)].body) and _raises_parse_error(hs[("ValueError",)].body)
+        assert len(hs[("UnicodeEncodeError",)].body) == 1 and isinstance(hs[("UnicodeEncodeError",)].body[0], ast.Pass)
+        assert [ast.unparse(x) for x in s.orelse] == ["family = socket.AF_INET6", "return (family, host)"]
+    except (AssertionError, ValueError):
+        raise Unsupported("try statement around inet_pton(AF_INET6) of an unknown shape")
+    t = (ind + "let '(_ret, _rv) := match o_inet6 O host with\n" +
+         ind + "    | MOk V6Ok => (true, MOk (6, host))\n" +
+         ind + "    | MOk V6OSError => (true, URLParseErr)\n" +
+         ind + "    | MOk V6UnicodeError => (_ret, _rv)\n" +
+         ind + "    | MRaise e => (true, MRaise e)\n" +
+         ind + "    | MOut w => (true, MOut w)\n" +
+         ind + "    end in\n")
+    return t, scope, ["_ret"]
+
+
+def try_inet4(T, s, scope, ind):
+    """try: inet_pton(AF_INET, host)  except (OSError, ValueError): family = None  else: family = AF_INET"""
+    if ast.unparse(s.body[0]) != "inet_pton(socket.AF_INET, host)" or len(s.body) != 1:
+        return None
+    try:
+        assert len(s.handlers) == 1 and not s.finalbody
+        assert set(_handler_names(s.handlers[0])) == {"OSError", "ValueError"}
+        assert [ast.unparse(x) for x in s.handlers[0].body] == ["family = None"]
+        assert [ast.unparse(x) for x in s.orelse] == ["family = socket.AF_INET"]
+    except AssertionError:
+        raise Unsupported("try statement around inet_pton(AF_INET) of an unknown shape")
+    return ind + "let family := (do b <- o_inet4 O host; MOk (if (b : bool) then 4 else 0)) in\n", scope | {"family"}, []
+
+
+def ret_parse_host(T, v, scope):
+    if not (isinstance(v, ast.Tuple) and len(v.elts) == 2):
+        raise Unsupported("parse_host returns something else than a pair")
+    f, h = v.elts
+    if isinstance(f, ast.Constant) and f.value is None:
+        return "(MOk (0, %s))" % T.expr(h, scope)
+    if _is_name(f, "family") and "family" in scope:
+        return "(do f <- family; MOk (f, %s))" % T.expr(h, scope)
+    raise Unsupported("parse_host return value")
+
+
+def assigned_try(T):
+    """py2coq's `assigned` does not know Try: tell it which names the two statements bind"""
+    orig = T.assigned
+
+    def assigned(stmts, brk=None):
+        out = []
+        rest = []
+        for st in stmts:
+            if isinstance(st, ast.Try):
+                src = ast.unparse(st.body[0]) if st.body else ""
+                names = ["_ret", "_rv"] if "AF_INET6" in src else ["family"]
+                for n in names:
+                    if n not in out:
+                        out.append(n)
+            else:
+                for n in orig([st], brk):
+                    if n not in out:
+                        out.append(n)
+        return out
+    T.assigned = assigned
+    orig_exits = T.exits
+
+    def exits(stmts, brk):
+        fl = list(orig_exits(stmts, brk))
+        for st in stmts:
+            for n in ast.walk(st):
+                if isinstance(n, ast.Try) and n.body and "AF_INET6" in ast.unparse(n.body[0]) and "_ret" not in fl:
+                    fl.append("_ret")
+        return fl
+    T.exits = exits
+    return T
+
+
+CFG_PH = {"name": "src_parse_host", "params": [("host", "list N")], "ret": "mres (N * list N)", "num": "Z",
+          "kinds": {"host": "str", "family": "mfam"}, "rv_default": "(MOk (0, (@nil N)))", "globals": GLOBALS,
+          "truthy": {"str": "nonempty"},
+          "subscripts": {**STR_SUBS, ("str", "[-1]"): ("py_char_last", "char"), ("str", "[1:-1]"): ("py_strip1", "str")},
+          "try_shapes": [try_inet6, try_inet4], "ret_render": ret_parse_host}
+
+
 HEADER = """(* GENERATED on every run by harness/translators/c06_src.py from %s; do not edit. *)
 From Boltons Require Import Lib.Prelude Lib.PySrc Lib.C06_Text Model.C06_Model Lib.C06_PySrc.
 Open Scope N_scope.
@@ -639,6 +764,7 @@ def generate(repo):
     fa, fb = slice_parse_url(py2coq.get_function(path, "parse_url"))
     out.append(UT(dict(CFG_UI)).function(fa))
     out.append(UT(dict(CFG_HP)).function(fb))
+    out.append(assigned_try(UT(dict(CFG_PH))).function(py2coq.get_function(path, "parse_host")))
     out.append("(* the idna codec on the host, as a function (its UnicodeError is propagated by the callers) *)\nVariable enc : list N -> list N.\n")
     node = normalise_true(py2coq.get_function(path, "URL.get_authority"), "with_userinfo")
     out.append(UT(dict(CFG_GA)).function(node))
